@@ -11,21 +11,21 @@ import (
 
 // Obligation: pc ==> goal, checked by asserting pc and (not goal).
 type Obligation struct {
-	ID     string // pkg.Func#kind.label@n
-	Family string // pkg.Func#kind.label
-	Kind   string
-	Func   string
-	Pos    string
-	Text   string // human-readable clause / expression
-	PC     []string
-	Goal   string
+	ID        string // pkg.Func#kind.label@n
+	Family    string // pkg.Func#kind.label
+	Kind      string
+	Func      string
+	Pos       string
+	Text      string // human-readable clause / expression
+	PC        []string
+	Goal      string
 	DeclMap   map[string]string
 	DeclOrder []string
 	Axioms    []string
 	AxiomKeys map[string][]string
 	Distinct  [][]string
-	Vacuity bool // expected to be refuted (sat): guards against contradictory assumptions
-	Inputs []InputSym
+	Vacuity   bool // expected to be refuted (sat): guards against contradictory assumptions
+	Inputs    []InputSym
 	// results
 	Status  string // discharged | refuted | unknown
 	Backend string
@@ -62,54 +62,54 @@ type VC struct {
 	strlits   map[string]string
 	typeTags  map[string]int
 
-	obls      []*Obligation
-	oblCount  map[string]int
-	entry     *State
-	entryVals map[string]*Value // params / receiver at entry by name
-	resultObjs []types.Object
-	resultNames []string
-	paths     int
-	maxPaths  int
-	loopOrd   int
-	uncontracted map[string]bool
-	depsUsed  map[string]bool
-	dropped   map[string]bool
-	inputs    []InputSym
-	written   map[string]bool // heap components written anywhere in this function (for frame check)
-	specMode  int             // >0: evaluating a spec expression (no safety obligations)
-	inlineDepth int
-	curInfo   *types.Info
-	curPkg    *PkgInfo
-	retStack  []*inlineFrame
-	wraps     map[string]bool
-	noSafety  map[string]bool
-	mode      string // "contract" | "sweep"
-	guards    []string // guard stack for short-circuit evaluation
+	obls                []*Obligation
+	oblCount            map[string]int
+	entry               *State
+	entryVals           map[string]*Value // params / receiver at entry by name
+	resultObjs          []types.Object
+	resultNames         []string
+	paths               int
+	maxPaths            int
+	loopOrd             int
+	uncontracted        map[string]bool
+	depsUsed            map[string]bool
+	dropped             map[string]bool
+	inputs              []InputSym
+	written             map[string]bool // heap components written anywhere in this function (for frame check)
+	specMode            int             // >0: evaluating a spec expression (no safety obligations)
+	inlineDepth         int
+	curInfo             *types.Info
+	curPkg              *PkgInfo
+	retStack            []*inlineFrame
+	wraps               map[string]bool
+	noSafety            map[string]bool
+	mode                string   // "contract" | "sweep"
+	guards              []string // guard stack for short-circuit evaluation
 	calleesWithContract map[string]bool
-	boxed       map[*types.Var]bool
-	callAssertSeen map[string]bool
-	fmtOf       map[string]string // Sprintf result term -> its constant format string
-	boxedAddr   map[*types.Var]bool // boxed because the address is taken (or a pointer method is called)
-	boxScanned  map[ast.Node]bool
-	inlineStack []*types.Func
-	assumptions map[string]bool
-	sentinels   map[string]bool
-	compSort    map[string]string
-	hidden      map[string]*types.Var
-	wrapMode    int
-	dry         int
-	nepoch      int
-	nbound      int
-	qdepth      int
-	predDepth   int
-	inTypeInv   bool
-	compLeafT   map[string]types.Type
-	loopIndex   map[ast.Node]int
-	callIndex   map[*ast.CallExpr]int // ordinal (source order) of a call among the calls of the same callee name
-	axiomsLoaded bool
-	frameTargets map[string][]string
-	frameWhole  bool
-	epochAlloc  map[int]string
+	boxed               map[*types.Var]bool
+	callAssertSeen      map[string]bool
+	fmtOf               map[string]string   // Sprintf result term -> its constant format string
+	boxedAddr           map[*types.Var]bool // boxed because the address is taken (or a pointer method is called)
+	boxScanned          map[ast.Node]bool
+	inlineStack         []*types.Func
+	assumptions         map[string]bool
+	sentinels           map[string]bool
+	compSort            map[string]string
+	hidden              map[string]*types.Var
+	wrapMode            int
+	dry                 int
+	nepoch              int
+	nbound              int
+	qdepth              int
+	predDepth           int
+	inTypeInv           bool
+	compLeafT           map[string]types.Type
+	loopIndex           map[ast.Node]int
+	callIndex           map[*ast.CallExpr]int // ordinal (source order) of a call among the calls of the same callee name
+	axiomsLoaded        bool
+	frameTargets        map[string][]string
+	frameWhole          bool
+	epochAlloc          map[int]string
 }
 
 type inlineFrame struct {
